@@ -8,12 +8,13 @@ CONSTANTS Interval,          \* retarget interval (2016 in the code)
           NL,                \* number of listeners (channels)
           H0, HMax,          \* initial height, height bound
           MaxDev,            \* requests deviate from a correct one in at most MaxDev dimensions
+          Deep,              \* allow_deep_reorgs; TRUE: the tracker may also start with nothing remembered
           PopFirst, KeepDecode   \* behaviour switches (see Tracker.tla)
 
 VARIABLES s, g, last
 vars == <<s, g, last>>
 
-K == [interval |-> Interval, maxReorg |-> MaxReorg, trusted |-> Trusted,
+K == [interval |-> Interval, maxReorg |-> MaxReorg, trusted |-> Trusted, deep |-> Deep,
       popFirst |-> PopFirst, keepDecode |-> KeepDecode]
 Contents == IF NL = 2 THEN {"e", "f1", "d1", "f2", "d2"} ELSE {"e", "f1", "d1"}
 Reqs == Requests(MaxDev, Contents, {0, 2, 3, -1, -2})
@@ -23,10 +24,12 @@ Hdr(i, fh) == [id |-> "A" \o ToString(i), p |-> IF i = 0 THEN "?" ELSE "A" \o To
                c |-> "b", lvl |-> 0, fh |-> fh]
 Listener(k) == [w |-> {NameI(k)}, s |-> {}, tw |-> 1,
                 m |-> [h |-> H0, fund |-> -1, ds |-> -1, fo |-> "-", sb |-> FALSE, other |-> FALSE]]
-InitState(fh) == [h |-> H0, tip |-> Hdr(2, fh), win |-> <<Hdr(1, "ok")>>,
+InitState(fh) == [h |-> H0, tip |-> Hdr(2, fh), win |-> <<Hdr(1, "ok")>>, anc |-> <<Hdr(0, "ok")>>,
                   ls |-> [k \in 1..NL |-> Listener(k)], tds |-> FALSE, mds |-> FALSE]
+\* started from a checkpoint: nothing remembered below the tip
+InitEmpty == [InitState("ok") EXCEPT !.win = <<>>, !.anc = <<Hdr(1, "ok"), Hdr(0, "ok")>>]
 
-Init == /\ s \in {InitState("ok"), InitState("zero")}
+Init == /\ s \in {InitState("ok"), InitState("zero")} \cup (IF Deep THEN {InitEmpty} ELSE {})
         /\ g = InitGhost
         /\ last = [op |-> "init"]
 
@@ -65,4 +68,6 @@ TypeOK == /\ Len(s.win) <= MaxReorg
 \* the remembered headers form a chain ending at the tip (fails at HEAD: popFirst)
 WindowLinked == /\ s.win # <<>> => s.win[1].id = s.tip.p
                 /\ \A i \in 1..(Len(s.win) - 1) : s.win[i + 1].id = s.win[i].p
+                \* ... and the node's chain continues below them
+                /\ s.anc # <<>> => s.anc[1].id = (IF s.win # <<>> THEN s.win[Len(s.win)].p ELSE s.tip.p)
 =============================================================================
